@@ -1,5 +1,6 @@
 import SageModel.Proto
 import SageModel.Model.C15
+import SageModel.Model.C12
 
 /-! Driver ops for C15.
 
@@ -517,7 +518,38 @@ def fdrRow : P FdrRow := do
   let label ← int; let poisson ← f64; let lyp ← f32; let disc ← f32; let ln1p ← f32; let sq ← f32
   pure { label, poisson, lyp, disc, ln1p, sq }
 
-/-- `fdrrun decoys fasta mgf | n (label poisson lyp disc ln1p spectrum_q)*n`.
+/-- the order `f32::total_cmp` sorts by, as an integer key (−0.0 below +0.0, NaNs at the ends) -/
+def totalKey (x : Float32) : Int :=
+  let n : Int := x.toBits.toNat
+  if n ≥ 2147483648 then (2147483647 : Int) - n else n
+
+/-- the single f32 division `decoy as f32 / target as f32` of an exact ratio (as in the C12 driver) -/
+def qToF32 (q : Rat) : Float32 := Float32.ofNat q.num.toNat / Float32.ofNat q.den
+
+/-- spectrum q-values = the C12 definition (`Sage.C12.spectrumQ` on the label sequence) applied to the PSMs
+    in decreasing REPORTED discriminant score. The code sorts with `par_sort_unstable_by(total_cmp)`: PSMs
+    with bit-identical scores may come in any order, so a tie between a target and a decoy leaves the
+    definition undecided (`na`); a tie within one class does not matter. NaN scores: `na`. -/
+def specQ (rows : List FdrRow) : String :=
+  if rows.any (fun r => r.disc.isNaN) then "na" else
+  -- inside a group of bit-identical scores the code's order is unspecified; the definition's q-values never
+  -- decrease down the list (C12.q_monotone), so within a group the reported q-values are matched in
+  -- increasing order
+  let sorted := (rows.toArray.qsort (fun a b =>
+    totalKey a.disc > totalKey b.disc || (totalKey a.disc == totalKey b.disc && totalKey a.sq < totalKey b.sq))).toList
+  let rec mixedTie : List FdrRow → Bool
+    | a :: b :: rest => (totalKey a.disc == totalKey b.disc && a.label != b.label) || mixedTie (b :: rest)
+    | _ => false
+  -- (a tie group with both labels always has two ADJACENT members of different label after sorting only if
+  --  the group is contiguous, which it is; compare every adjacent pair of the group)
+  if mixedTie sorted then "na" else
+  let labels := sorted.map fun r => r.label == -1
+  let qs := (Sage.C12.spectrumQ labels).1
+  if qs.length != sorted.length then "bad:spectrum_q_ne_definition_in_score_order" else
+  if (sorted.zip qs).all (fun (r, q) => r.sq.toBits == (qToF32 q).toBits) then "ok"
+  else "bad:spectrum_q_ne_definition_in_score_order"
+
+/-- `fdrrun decoys predict_rt fasta mgf | n (label poisson lyp disc ln1p spectrum_q)*n`.
     When only one class is present among the reported PSMs the LDA cannot have been fitted (`train` has an
     empty class: `score_psms` returns `None`), so `Runner::spectrum_fdr` must have written the heuristic
     `(-poisson as f32).ln_1p() + longest_y_pct / 3.0`: the model recomputes it bit-exactly in `Float32`
@@ -526,7 +558,8 @@ def fdrRow : P FdrRow := do
     `f32::ln_1p` of the same argument), accepted only within 4 f32 ulps of an independent f64 evaluation
     (`ln1pRef`: `log(1+x)·x/((1+x)−1)`). Spec: every in-domain PSM (poisson finite and ≤ 0, longest_y_pct
     finite) has a finite score (`bad:fallback_not_finite`) equal to the heuristic (`bad:fallback_ne_heuristic`),
-    and in decreasing score order the spectrum q-values never decrease (`bad:fallback_order`). -/
+    and — fitted or not — the spectrum q-values equal the C12 definition in reported score order
+    (`bad:spectrum_q_ne_definition_in_score_order`, see `specQ`). -/
 def handleFdrRun (impl : List String) : Option Reply := do
   if impl == ["panic"] then
     return { model := "-", agree := false, spec := "bad:panic" }
@@ -548,14 +581,10 @@ def handleFdrRun (impl : List String) : Option Reply := do
     if badLn then "bad:ln1p_value" else
     let inDomain (r : FdrRow) : Bool := r.poisson.isFinite && decide (r.poisson ≤ 0.0) && r.lyp.isFinite
     if rows.any (fun r => inDomain r && !r.disc.isFinite) then "bad:fallback_not_finite" else
-    if !single then "ok" else
-    if (rows.zip discM).any (fun (r, d) => inDomain r && outF32c r.disc != outF32c d) then "bad:fallback_ne_heuristic" else
-    -- ordering consequence: PSMs taken in decreasing score order have non-decreasing spectrum q-values
-    let sorted := (rows.filter inDomain).toArray.qsort (fun a b => a.disc > b.disc) |>.toList
-    let rec mono : List FdrRow → Bool
-      | a :: b :: rest => (a.disc == b.disc || decide (a.sq ≤ b.sq)) && mono (b :: rest)
-      | _ => true
-    if mono sorted then "ok" else "bad:fallback_order"
+    if single && (rows.zip discM).any (fun (r, d) => inDomain r && outF32c r.disc != outF32c d) then
+      "bad:fallback_ne_heuristic" else
+    -- whether or not the LDA was fitted: the spectrum q-values are the C12 definition in REPORTED score order
+    specQ rows
   pure (exact model (join impl) spec)
 
 def handle (op : String) (args impl : List String) : Option Reply :=
